@@ -164,6 +164,37 @@ VP_EXHAUSTIVE (roundtrip_all, 65536, 65536, "every half pattern: half->float->ha
     }
 }
 
+// half = float over previous contents: the assignment is a float->half conversion and may not depend on what the
+// destination held before (a zero of the other sign, the same value, the negated value, infinities, NaNs, junk)
+VP_EXHAUSTIVE (assign_over_previous_contents, 65536, 65536, "index i: the float value of half pattern i, the float patterns i<<16, i<<16|0x1000 and i<<16|0xffff, each assigned (half::operator=(float)) to destinations preset to 0x0000, 0x8000, the expected result, the expected result with the sign flipped, +-inf, NaNs 0x7e00 / 0xffff, +-smallest subnormal, 0x3c00 and a hash of i; the bits must equal the independent codec's result every time; non-trivial = expected result is a zero, subnormal, infinity or NaN")
+{
+    uint16_t h = (uint16_t) idx;
+    uint32_t us[4];
+    us[0] = f2u (imath_half_to_float (h));
+    us[1] = (uint32_t) idx << 16;
+    us[2] = ((uint32_t) idx << 16) | 0x1000;
+    us[3] = ((uint32_t) idx << 16) | 0xffff;
+    VP_NOTE (c, "index 0x" << std::hex << idx << ": floats 0x" << us[0] << " 0x" << us[1] << " 0x" << us[2] << " 0x" << us[3]);
+    bool nt = false;
+    for (int k = 0; k < 4; ++k)
+    {
+        uint32_t u    = us[k];
+        uint16_t want = ref_f2h_bits (u);
+        float    f    = u2f (u);
+        int      e    = (want >> 10) & 31;
+        if (e == 0 || e == 31) nt = true;
+        const uint16_t prevs[12] = { 0x0000, 0x8000, want, (uint16_t) (want ^ 0x8000), 0x7c00, 0xfc00, 0x7e00, 0xffff, 0x0001, 0x8001, 0x3c00, (uint16_t) (idx * 40503u + 12345u) };
+        for (int j = 0; j < 12; ++j)
+        {
+            half d;
+            d.setBits (prevs[j]);
+            half* p = &(d = f);
+            VP_REQUIRE (c, p == &d && d.bits () == want, "assign-float-over-previous", "half holding 0x" << std::hex << prevs[j] << " = float 0x" << u << " gives 0x" << d.bits () << " expected 0x" << want);
+        }
+    }
+    c.nt (nt);
+}
+
 // cross-validate the two reference codecs on a stratified subset: for each of the 2^16 high halves,
 // 256 low patterns incl. the tie and its neighbours
 VP_EXHAUSTIVE (oracle_crosscheck, 65536, 65536, "oracle-vs-oracle: by-value codec vs nearest-neighbour search codec on 2^16 blocks x 320 stratified low words")
